@@ -302,7 +302,11 @@ def c17_fold_layer(prop, tier, seed, out):
 def run_c17(tier, seed):
     from . import p_disk
     p_disk.CFG['C17'] = ['ModelSyncedSurvive', 'RecOpenOk', 'RecNothingElse']
-    return p_disk.run_disk('C17', tier, seed, extra=c17_fold_layer)
+    def both(prop, tier, seed, out):
+        cov = c17_fold_layer(prop, tier, seed, out)
+        if not out.full(): cov.update(edit_codec_layer(prop, tier, seed, out))
+        return cov
+    return p_disk.run_disk('C17', tier, seed, extra=both)
 
 
 CHECKS['C17'] = run_c17
@@ -612,3 +616,84 @@ def sep_layer(prop, tier, seed, out):
         out.violation('index-key shortening breaks its contract (start <= separator < limit / key <= successor): %s' % (bad or '')[:300], rd, dict(kind='sep'))
     c.rmtree(d)
     return {'Sep': st}
+
+
+# =============================================================================================
+# version-edit encoding on boundary values (C17)
+# =============================================================================================
+def edit_codec_layer(prop, tier, seed, out):
+    import random
+    quick = tier == 'quick'
+    rng = random.Random(seed * 77 + 5)
+    lib = c.build_lib(); exe = c.build_driver('edit', lib)
+    B = [0, 1, 127, 128, 129, 16383, 16384, 2 ** 21 - 1, 2 ** 21, 2 ** 28 - 1, 2 ** 28, 2 ** 31 - 1, 2 ** 31, 2 ** 32 - 1, 2 ** 32, 2 ** 35, 2 ** 42 - 1, 2 ** 49, 2 ** 56 - 1, 2 ** 56, 2 ** 63 - 1, 2 ** 63, 2 ** 64 - 1]
+    def num(): return rng.choice(B) if rng.random() < 0.8 else rng.getrandbits(rng.choice([7, 14, 33, 57, 64]))
+    def ikey():
+        u = bytes(rng.choice([0, 1, 0x61, 0x7f, 0x80, 0xff]) for _ in range(rng.choice([0, 1, 2, 7, 8, 9, 127, 128, 129, 300])))
+        return u + (((min(num(), 2 ** 56 - 1)) << 8) | rng.choice([0, 1])).to_bytes(8, 'little')
+    vecs = []
+    for i in range(400 if quick else 5000):
+        e = dict(comparator=None, log=None, prevlog=None, nextfile=None, lastseq=None, compact=[], deleted=[], added=[])
+        if rng.random() < 0.3: e['comparator'] = ''.join(rng.choice('abcXYZ.-_') for _ in range(rng.choice([0, 1, 26, 127, 128, 200])))
+        for f in ('log', 'prevlog', 'nextfile', 'lastseq'):
+            if rng.random() < 0.6: e[f] = num() if f != 'lastseq' else min(num(), 2 ** 56 - 1)
+        for _ in range(rng.choice([0, 0, 1, 3])): e['compact'].append((rng.randrange(7), ikey()))
+        dl = set()
+        for _ in range(rng.choice([0, 1, 2, 5])): dl.add((rng.randrange(7), num()))
+        e['deleted'] = sorted(dl)
+        for _ in range(rng.choice([0, 1, 2, 4])): e['added'].append((rng.randrange(7), num(), num(), ikey(), ikey()))
+        vecs.append(e)
+    d = c.scratch('edc'); vp = os.path.join(d, 'vec.txt'); op = os.path.join(d, 'out.txt')
+    hx = lambda b: b.hex() if b else '-'
+    with open(vp, 'w') as f:
+        for e in vecs:
+            f.write('E\n')
+            if e['comparator'] is not None: f.write('c %s\n' % hx(e['comparator'].encode('latin1')))
+            for tag, k in (('l', 'log'), ('p', 'prevlog'), ('n', 'nextfile'), ('s', 'lastseq')):
+                if e[k] is not None: f.write('%s %d\n' % (tag, e[k]))
+            for lv, k in e['compact']: f.write('P %d %s\n' % (lv, hx(k)))
+            for lv, n in e['deleted']: f.write('D %d %d\n' % (lv, n))
+            for lv, n, sz, sm, lg in e['added']: f.write('A %d %d %d %s %s\n' % (lv, n, sz, hx(sm), hx(lg)))
+            f.write('X\n')
+            f.write('I %s\n' % hx(fmt.encode_edit(e)))
+    p = c.sh([exe, vp, op], timeout=300)
+    if p.returncode != 0:
+        p2 = c.sh([exe, vp, op], timeout=300)
+        if p2.returncode == 0: raise Broken('edit driver failure not reproducible')
+        rd = c.replay_dir(prop, 'codec'); shutil.copy(vp, os.path.join(rd, 'vectors.txt'))
+        json.dump(dict(kind='codec', why='driver exit %s' % p.returncode, stderr=(p.stderr or '')[-400:]), open(os.path.join(rd, 'replay.json'), 'w'))
+        out.violation('version-edit export / import aborts on boundary values (exit %s)' % p.returncode, rd, dict(kind='codec_crash'))
+        c.rmtree(d); return {'EditCodec': dict(states=0, transitions=0, executions=0)}
+    res = [l.split(' ') for l in open(op).read().split('\n') if l]
+    def norm(e):
+        # a compact pointer set twice for a level keeps the last one in lcdb's edit? no: pointers are a list, kept as written
+        return dict(comparator=e['comparator'] if e['comparator'] is not None else '<none>',
+                    nums=[str(e[k]) if e[k] is not None else '-' for k in ('log', 'prevlog', 'nextfile', 'lastseq')],
+                    compact=[[lv, hx(k)] for lv, k in e['compact']], deleted=[[lv, str(n)] for lv, n in e['deleted']],
+                    added=[[lv, str(n), str(sz), hx(sm), hx(lg)] for lv, n, sz, sm, lg in e['added']])
+    lines = []
+    if len(res) != 3 * len(vecs): raise Broken('edit driver output has %d lines for %d vectors' % (len(res), len(vecs)))
+    for i, e in enumerate(vecs):
+        b, r, j = res[3 * i], res[3 * i + 1], res[3 * i + 2]
+        raw = bytes.fromhex(b[1]) if b[1] != '-' else b''
+        try:
+            got = norm(fmt.decode_edit(raw))
+        except Exception as ex:
+            got = dict(error=str(ex))
+        foreign = hx(fmt.encode_edit(e))
+        lines.append(dict(e='codec', want=norm(e), got=got, bytes=b[1], reimport_ok=int(r[1]), reexport=r[2], foreign=foreign, foreign_ok=int(j[1]), foreign_back=j[2]))
+    tp = os.path.join(d, 'codec.ndjson')
+    with open(tp, 'w') as f:
+        for ln in lines: f.write(json.dumps(ln, separators=(',', ':')) + '\n')
+    r = c.trace_validate('EditTrace', 'EditTrace.cfg', tp, timeout=900)
+    st = dict(states=r['res'].distinct, transitions=r['res'].generated, executions=1, vectors=len(vecs))
+    if not r['accepted']:
+        bad = lines[r['prefix']] if r['prefix'] is not None and r['prefix'] < len(lines) else None
+        rd = c.replay_dir(prop, 'codec'); shutil.copy(tp, os.path.join(rd, 'trace.ndjson')); shutil.copy(vp, os.path.join(rd, 'vectors.txt'))
+        why = None
+        if bad:
+            why = 'decoded edit differs from the edit built' if bad['got'] != bad['want'] else 'import of lcdb\'s own bytes fails or changes them' if (bad['reimport_ok'] != 1 or bad['reexport'] != bad['bytes']) else 'bytes of the independent encoder are refused or changed'
+        json.dump(dict(kind='codec', line=r['prefix'], why=why, event=bad), open(os.path.join(rd, 'replay.json'), 'w'), indent=1)
+        out.violation('version-edit encoding is not exact on boundary values: %s: %s' % (why, json.dumps(bad)[:300]), rd, dict(kind='codec'))
+    c.rmtree(d)
+    return {'EditCodec': st}
